@@ -23,10 +23,27 @@ def run(run: core.Run, tier: str):
       "mode at construction x mode at call judged against the surrogate of the CALL-time mode, "
       "construct-with-decoy-then-assign, and the histories on ONE object of fixedq_hist: every call of a history "
       "is judged for nearest / saturate / monotone / idempotent against the format of the attributes the object "
-      "has at THAT call; after _set_trainable_parameter() given the data-dependent scale the object reports)")
+      "has at THAT call; after _set_trainable_parameter() given the data-dependent scale the object reports); "
+      "PLUS family stoch-phase: every class with use_stochastic_rounding set (flag as bool / int / np.bool_ / "
+      "np.int32, constructor argument or assigned later) called in the inference phase reached by every route "
+      "(phase never touched / set_learning_phase(0) / learning_phase_scope(0) / after a training-phase call / "
+      "after leaving scope(1) / object constructed in the training phase / through QActivation with and without "
+      "training=False / inside a tf.function), and with the flag OFF in the training phase: same model "
+      "(QKV.qbitsS etc. with the flag and the phase, arbitrary draws), same clauses nearest / saturate / monotone "
+      "/ idempotent, plus `deterministic`: the same call twice gives the same tensor")
   fixedq.compare(run, recs, with_reporters=False)
   for r in recs:
+    if r.train:
+      continue     # training-phase calls of the stoch family: C01's clauses only (Props.C02: `_within_step_partial`)
     key0 = r.flags()
+    if r.ys_again is not None:
+      # ---- use_stochastic_rounding in a deterministic round mode (learning phase off, or flag off): two
+      # identical calls give identical results (Props.C02.C02_inference_deterministic)
+      run.count("deterministic_checked")
+      bad = [(str(x), str(a), str(b)) for x, a, b in zip(r.xs, r.ys, r.ys_again) if a != b]
+      if bad:
+        run.violate("deterministic", key0, {"config": r.label, "x": bad[0][0], "first call": bad[0][1],
+                                            "second call": bad[0][2], "n": len(bad)}, mirrored=r.mirrored)
     lat = fixedq.lattice(r.kind, r.cfg)
     if lat is None:
       # 1-bit sign formats: only monotonicity and idempotence apply
